@@ -194,12 +194,20 @@ void CDNS::CdnsDecoder::skip_item()
     switch (cbor_type) {
         case CborType::UNSIGNED:
         case CborType::NEGATIVE:
+            if (item_length >= 28) {
+                throw CdnsDecoderException(("Unsupported CBOR additional information value: " +
+                                            std::to_string(item_length)).c_str());
+            }
+            read_int(item_length);
+            break;
+
         case CborType::TAG:
             if (item_length >= 28) {
                 throw CdnsDecoderException(("Unsupported CBOR additional information value: " +
                                             std::to_string(item_length)).c_str());
             }
             read_int(item_length);
+            skip_item();
             break;
 
         case CborType::SIMPLE:
@@ -227,7 +235,7 @@ void CDNS::CdnsDecoder::skip_item()
             }
             if (item_length == 31) {
                 while(true) {
-                    if (peek_type() == CborType::SIMPLE && (m_p[0] & 0x1F) == 31) {
+                    if (peek_type() == CborType::BREAK) {
                         m_p++;
                         break;
                     }
@@ -292,7 +300,7 @@ std::string CDNS::CdnsDecoder::read_string(CborType cbor_type, uint64_t length, 
         }
     }
     else {
-        while (peek_type() != CborType::SIMPLE) {
+        while (peek_type() != CborType::BREAK) {
             CborType chunk_type;
             uint8_t chunk_length_value;
             read_cbor_type(chunk_type, chunk_length_value);
